@@ -172,6 +172,20 @@ def _worker(task):
             check('near-valid', f + ch)
             check('near-valid', ch + f)
     if part == 0:
+        # --- one input per row of the tables of the module (aliases, codes), self-similar numbers, extremal shapes
+        for v in valid_all[:2]:
+            for lab, y in G.table_variants(mod, v, rng, 400 if tier == 'quick' else 6000):
+                check('table', y)
+        for v in valid_all[:1 if tier == 'quick' else 8]:
+            for lab, y in G.self_similar(v, rng, 150 if tier == 'quick' else 1500):
+                o, _v = check('self-similar', y)
+                if o is not None and o[0] == 'ok':
+                    for z in G.case_presentations(y):
+                        check('self-similar', z)
+        for v in common.extremal_numbers(modname):
+            check('extremal', v)
+            for y in common.mutations(rng, v, 4):
+                check('extremal', y)
         # --- blanks
         for b in BLANKS + [w * k for w in common.WHITESPACE for k in (1, 2, 7)]:
             check('blank', b)
